@@ -142,45 +142,83 @@ def scorer_multiword():
     init = X.find_func(X.parse("lib_trainer/detection_rules/multiword_detector.py"), "__init__", "MultiWordDetector")
     names = [a.arg for a in init.args.args]
     defaults = dict(zip(names[-len(init.args.defaults):], [ast.literal_eval(d) for d in init.args.defaults]))
-    skips = [n.comparators[0].value for n in ast.walk(fn) if isinstance(n, ast.Compare) and isinstance(n.left, ast.Name)
-             and n.left.id == "skipped" and len(n.ops) == 1 and isinstance(n.ops[0], ast.Lt)
-             and isinstance(n.comparators[0], ast.Constant)]
-    if len(skips) != 1:
-        raise X.ExtractError("scorer: `skipped < N` not found exactly once")
-    # the words of length >= min_len only: `if key >= min_len`
-    return kw["threshold"], kw["min_len"], defaults["max_len"], skips[0]
+    return kw["threshold"], kw["min_len"], defaults["max_len"], _scorer_skip(fn)
+
+
+def _scorer_skip(fn):
+    """The number N of probability classes create_multiword_detector skips: the test `skipped < N` (the word is
+    not trained while it holds), whatever the counter is called and however the test is written: `c < N`, `c >= N`
+    with the branches exchanged, `c <= N-1`, `c > N-1`, the constant on the left.  The counter is the local that
+    is set to 0 and incremented by `+= 1` / `= c + 1` in this function; the branch that holds the `.train(` call
+    must be the one where the counter has reached N (anything else raises)."""
+    zeroed = {n.targets[0].id for n in ast.walk(fn) if isinstance(n, ast.Assign) and len(n.targets) == 1
+              and isinstance(n.targets[0], ast.Name) and isinstance(n.value, ast.Constant) and n.value.value == 0
+              and type(n.value.value) is int}
+    bumped = {n.target.id for n in ast.walk(fn) if isinstance(n, ast.AugAssign) and isinstance(n.target, ast.Name)
+              and isinstance(n.op, ast.Add) and isinstance(n.value, ast.Constant) and n.value.value == 1}
+    bumped |= {n.targets[0].id for n in ast.walk(fn) if isinstance(n, ast.Assign) and len(n.targets) == 1
+               and isinstance(n.targets[0], ast.Name) and isinstance(n.value, ast.BinOp) and isinstance(n.value.op, ast.Add)
+               and {type(n.value.left), type(n.value.right)} == {ast.Name, ast.Constant}
+               and n.targets[0].id in {x.id for x in (n.value.left, n.value.right) if isinstance(x, ast.Name)}}
+    counters = zeroed & bumped
+
+    def has_train(stmts):
+        return any(isinstance(c, ast.Call) and isinstance(c.func, ast.Attribute) and c.func.attr == "train"
+                   for s in stmts for c in ast.walk(s))
+
+    found = []
+    for n in ast.walk(fn):
+        if not (isinstance(n, ast.If) and isinstance(n.test, ast.Compare) and len(n.test.ops) == 1):
+            continue
+        a, op, b = n.test.left, type(n.test.ops[0]), n.test.comparators[0]
+        if isinstance(a, ast.Constant) and isinstance(b, ast.Name):            # N op c  ->  c op' N
+            a, b = b, a
+            op = {ast.Lt: ast.Gt, ast.Gt: ast.Lt, ast.LtE: ast.GtE, ast.GtE: ast.LtE}.get(op, op)
+        if not (isinstance(a, ast.Name) and a.id in counters and isinstance(b, ast.Constant) and type(b.value) is int):
+            continue
+        if op in (ast.Lt, ast.LtE):            # the test holds while skipping: the training is on the other side
+            nskip = b.value + (1 if op is ast.LtE else 0)
+            ok = has_train(n.orelse) and not has_train(n.body)
+        elif op in (ast.GtE, ast.Gt):          # the test holds once N classes were skipped: the training is here
+            nskip = b.value + (1 if op is ast.Gt else 0)
+            ok = has_train(n.body) and not has_train(n.orelse)
+        else:
+            raise X.ExtractError("scorer: the skip counter is compared with %s" % op.__name__)
+        if not ok:
+            raise X.ExtractError("scorer: the branches of the skip test do not train on the side where the counter reached N")
+        found.append(nskip)
+    if len(found) != 1:
+        raise X.ExtractError("scorer: the test `skipped < N` was not found exactly once (%d found)" % len(found))
+    return found[0]
 
 
 def scorer_rebuild_check():
     """does PCFGPasswordScorer.parse zero the probability when re-applying the mask to the
-    lower-cased word does not give back the alpha section (`if rebuilt != text: cur_prob = 0`)?"""
+    lower-cased word does not give back the alpha section (`if rebuilt != text: cur_prob = 0` inside
+    `for text, word, mask in zip(alpha_sections, found_alpha_strings, found_mask_list)`)?
+
+    Only the presence of the check is decided here, by its shape and whatever the local variables are
+    called: a loop over a zip of three lists whose body has a conditional with a comparison that assigns 0.
+    What the loop computes is the business of the translator tie (harness/translate_scorer.py translates
+    parse() on every run and ScorerGenProofs.v proves it equal to the model WITH the check)."""
     fn = X.find_func(X.parse("lib_scorer/pcfg_password_scorer.py"), "parse", "PCFGPasswordScorer")
-    names = {n.id for n in ast.walk(fn) if isinstance(n, ast.Name)}
+    loops = [n for n in ast.walk(fn) if isinstance(n, ast.For) and isinstance(n.iter, ast.Call)
+             and isinstance(n.iter.func, ast.Name) and n.iter.func.id == "zip" and len(n.iter.args) == 3
+             and isinstance(n.target, ast.Tuple) and len(n.target.elts) == 3]
     hits = []
-    for n in ast.walk(fn):
-        if isinstance(n, ast.If) and isinstance(n.test, ast.Compare) and len(n.test.ops) == 1 \
-                and isinstance(n.test.ops[0], ast.NotEq) and ast.unparse(n.test.left) == "rebuilt" \
-                and ast.unparse(n.test.comparators[0]) == "text":
-            if [ast.unparse(b) for b in n.body] != ["cur_prob = 0"] or n.orelse:
-                raise X.ExtractError("scorer: unexpected body of the rebuild test")
-            hits.append(n)
+    for loop in loops:
+        for n in ast.walk(loop):
+            if isinstance(n, ast.If) and any(isinstance(c, ast.Compare) for c in ast.walk(n.test)) \
+                    and any(isinstance(b, ast.Assign) and isinstance(b.value, ast.Constant) and b.value.value == 0
+                            and type(b.value.value) in (int, float) for b in n.body):
+                hits.append(loop)
+                break
     if not hits:
-        if "rebuilt" in names:
-            raise X.ExtractError("scorer: `rebuilt` is used but the test `rebuilt != text` was not found")
+        if loops:
+            raise X.ExtractError("scorer: a loop over a zip of three lists without the rebuild test")
         return False
     if len(hits) != 1:
-        raise X.ExtractError("scorer: more than one rebuild test")
-    # the loop it sits in and the definition of rebuilt
-    loops = [n for n in ast.walk(fn) if isinstance(n, ast.For) and hits[0] in ast.walk(n)]
-    if len(loops) != 1 or ast.unparse(loops[0].target) != "(text, word, mask)" \
-            or ast.unparse(loops[0].iter) != "zip(alpha_sections, found_alpha_strings, found_mask_list)":
-        raise X.ExtractError("scorer: unexpected loop around the rebuild test")
-    defs = [ast.unparse(n.value) for n in ast.walk(fn) if isinstance(n, ast.Assign) and ast.unparse(n.targets[0]) == "rebuilt"]
-    if defs != ["''.join((c.upper() if m == 'U' else c for c, m in zip(word, mask)))"]:
-        raise X.ExtractError("scorer: unexpected definition of rebuilt: %r" % defs)
-    secs = [ast.unparse(n.value) for n in ast.walk(fn) if isinstance(n, ast.Assign) and ast.unparse(n.targets[0]) == "alpha_sections"]
-    if secs != ["[x[0] for x in section_list if x[1] and x[1][0] == 'A']"]:
-        raise X.ExtractError("scorer: unexpected definition of alpha_sections: %r" % secs)
+        raise X.ExtractError("scorer: more than one rebuild loop")
     return True
 
 
